@@ -13,6 +13,11 @@ from . import evalbase as eb
 
 name = 'eval'
 
+
+def RAISE_ORACLE(profile):
+    return 'I12.raise' if profile == 'faults' else 'I01.raise'
+
+
 FAULT_KINDS = ['absent_column', 'dup_name', 'draws_outside', 'rv_outside', 'hess_without_grad', 'bad_choice_key',
                'bad_avail_keys', 'nan_data', 'text_data', 'empty_data', 'panel_outside', 'nests_overlap',
                'nests_outside', 'missing_read', 'missing_unread']
